@@ -34,6 +34,7 @@ GregEasterMarchDay(Y) ==
   IN N + (7 - wN)                               \* next Sunday, strictly after
 
 \* Julian: the 19-year table of paschal full moons (day of March)
+\* @type: Seq(Int);
 JulianPFM == <<36, 25, 44, 33, 22, 41, 30, 49, 38, 27, 46, 35, 24, 43, 32, 21, 40, 29, 48>>
 JulEasterMarchDay(Y) ==
   LET G  == (Y % 19) + 1
@@ -43,9 +44,11 @@ JulEasterMarchDay(Y) ==
   IN N + (7 - wN)
 
 EasterMarchDay(Y) == IF Y >= 1583 THEN GregEasterMarchDay(Y) ELSE JulEasterMarchDay(Y)
+\* @type: (Int) => <<Int, Int>>;
 EasterDef(Y) == LET n == EasterMarchDay(Y) IN IF n > 31 THEN <<4, n - 31>> ELSE <<3, n>>
 
 \* transcription of Epoch.easter (refinement obligation, MC_Computus)
+\* @type: (Int) => <<Int, Int>>;
 EasterCode(Y) ==
   IF Y >= 1583 THEN
     LET a == Y % 19   b == Y \div 100   c == Y % 100   d == b \div 4   e == b % 4
@@ -87,6 +90,7 @@ RoshHashanahJDN(H) == HebElapsed(H) - 1373428 + 1721425
 HebYearLen(H) == RoshHashanahJDN(H + 1) - RoshHashanahJDN(H)
 \* Pesach (15 Nisan) in civil year X: 163 days before 1 Tishri of A.M. X + 3761
 PesachJDN(X) == RoshHashanahJDN(X + 3761) - 163
+\* @type: (Int) => <<Int, Int>>;
 PesachDef(X) == LET c == CivilOf(PesachJDN(X)) IN <<c[2], c[3]>>
 PesachYearOK(X) == CivilOf(PesachJDN(X))[1] = X
 PesachDow(X) == (PesachJDN(X) + 1) % 7
@@ -99,6 +103,7 @@ IslLeap(h) == (h % 30) \in {2, 5, 7, 10, 13, 16, 18, 21, 24, 26, 29}
 IslMLen(h, m) == IF m % 2 = 1 THEN 30 ELSE IF m = 12 /\ IslLeap(h) THEN 30 ELSE 29
 IslYLen(h) == IF IslLeap(h) THEN 355 ELSE 354
 IslStart == [y |-> 1, m |-> 1, d |-> 1, jdn |-> IslEpochJDN]
+\* @type: ({ y: Int, m: Int, d: Int, jdn: Int }) => { y: Int, m: Int, d: Int, jdn: Int };
 IslNext(i) ==
   IF i.d < IslMLen(i.y, i.m) THEN [i EXCEPT !.d = i.d + 1, !.jdn = i.jdn + 1]
   ELSE IF i.m < 12 THEN [i EXCEPT !.m = i.m + 1, !.d = 1, !.jdn = i.jdn + 1]
